@@ -26,6 +26,54 @@ def gen_vectors(ctx, fam, label=None, workers="auto", npa=1, nra=1, simulate=Non
     return r.vectors
 
 
+def gen_xcases(ctx, fam, cases, npa, nra, label=None):
+    """Oracle and mechanism (with no deviation) of GIVEN exchanges - e.g. two-attribute methods assembled from enumerated
+    single-attribute exchanges - computed, and checked against the invariants, by TLC like every enumerated one."""
+    text = "".join(json.dumps({"pa": c["pa"], "ra": c["ra"], "tagged": c.get("tagged", False), "pv": c["pv"], "rv": c["rv"], "flag": c.get("flag", "none")}) + "\n"
+                   for c in cases)
+    r = ctx.gen("mc/MC_OpenAPIOps", "gen/Gen_OpenAPIOps_xcases.cfg", consts={"Family": '"%s"' % fam, "NPA": npa, "NRA": nra},
+                files={"xcases.ndjson": text, "devsets.ndjson": json.dumps({"devs": []}) + "\n", "designs.ndjson": ""},
+                label=label or ("Gen given exchanges %s %dx%d (%d)" % (fam, npa, nra, len(cases))), timeout=1500)
+    out, seen = [], set()
+    for v in r.vectors:          # (several terminal states per exchange where the mechanism has a choice)
+        k = xkey(v)
+        if k not in seen:
+            seen.add(k)
+            out.append(v)
+    return out
+
+
+def pair_cases(vectors, n, seed, fam="req"):
+    """n seeded two-attribute exchanges assembled from single-attribute ones: half of them one body attribute next to one
+    attribute outside the body (the body type is then a proper part of the payload type)."""
+    import random
+    rnd = random.Random(seed)
+    key, val = ("pa", "pv") if fam == "req" else ("ra", "rv")
+    ok = [v for v in vectors if v.get("flag", "none") == "none" and not v.get("raw") and len(v[key]) == 1 and v[key][0]["nest"] not in hg.WHOLE
+          and v[key][0]["nest"] != "mapparams"]
+    body = [v for v in ok if v[key][0]["loc"] == "body"]
+    other = [v for v in ok if v[key][0]["loc"] != "body"]
+    out, seen, tries = [], set(), 0
+    while len(out) < n and tries < 50 * n and body and other:
+        tries += 1
+        if len(out) % 2 == 0:
+            a, b = rnd.choice(body), rnd.choice(other)
+            if rnd.random() < 0.5:
+                a, b = b, a
+        else:
+            a, b = rnd.choice(ok), rnd.choice(ok)
+        if a[key][0]["loc"] == "path" and b[key][0]["loc"] == "path" and False:
+            continue
+        c = {"pa": a["pa"], "ra": a["ra"], "pv": a["pv"], "rv": a["rv"], "tagged": False}
+        c[key] = [a[key][0], b[key][0]]
+        c[val] = [a[val][0], b[val][0]]
+        k = core.canon(c)
+        if k not in seen:
+            seen.add(k)
+            out.append(c)
+    return out
+
+
 def gen_shapes(ctx, fam):
     r = ctx.gen("mc/MC_OpenAPIOps", "gen/Gen_OpenAPIOps_shapes.cfg", consts={"Family": '"%s"' % fam}, label="Gen shapes " + fam, workers=2, timeout=600)
     return [v["a"] for v in r.vectors]
